@@ -23,7 +23,7 @@ Record srv_cfg := mk_srv_cfg {
 Inductive verdict :=
 | VOk
 | VAnnotations                 (* ValidateAnnotations failed (oracle) *)
-| VNameEmpty | VProxyProtocol | VBandwidthMode | VLocalPort | VHealthType | VHealthPath | VPlugin
+| VNameEmpty | VProxyProtocol | VBandwidthMode | VLocalPort | VRemotePort | VHealthType | VHealthPath | VPlugin
 | VDomainsEmpty | VMultiplexer
 | VTcpmuxDisabled | VHTTPDisabled | VHTTPSDisabled
 | VDomainBelongs (d : bytes)   (* custom domain [d] should not belong to subdomain host *)
@@ -96,8 +96,10 @@ Definition val_proxy_client (ann_ok plugin_ok : bool) (pc : proxy_cfg) : verdict
   match val_base_client ann_ok plugin_ok (cfg_base pc) with
   | VOk =>
       match pc with
-      | Cfg_TCPProxyConfig _ => VOk
-      | Cfg_UDPProxyConfig _ => VOk
+      (* validateTCPProxyConfigForClient / validateUDPProxyConfigForClient: ValidatePort(remotePort)
+         (repaired code, 8be3cd7; the server-side functions below are unchanged and do not look at it) *)
+      | Cfg_TCPProxyConfig c => if val_port (TCPProxyConfig_RemotePort c) then VOk else VRemotePort
+      | Cfg_UDPProxyConfig c => if val_port (UDPProxyConfig_RemotePort c) then VOk else VRemotePort
       | Cfg_TCPMuxProxyConfig c =>
           match val_domain_client (TCPMuxProxyConfig_DomainConfig c) with
           | VOk => if negb (val_in [v_httpconnect] (TCPMuxProxyConfig_Multiplexer c)) then VMultiplexer else VOk
